@@ -32,7 +32,8 @@ ASSUMPTIONS = [
 ]
 
 KEYS = ['a', 'b', 'dir/x', 'dir/y', 'deep/er/z', 'k with space', 'user:1', 'user_1', 'q?', 'q_']     # distinct keys stay distinct files
-MISSING = ['never', 'dir/never', 'other/missing', 'a/b', 'a/b/c', 'b/x']     # also below a key that is a plain file
+MISSING = ['never', 'dir/never', 'other/missing', 'a/b', 'a/b/c', 'b/x',     # also below a key that is a plain file
+           'dir', 'deep', 'deep/er']      # and never-set keys that are a directory once a key below them is stored
 VALS = [I(0), I(7), R(2.5), S(''), S('v'), S('hello "q"'), C('z'), Y('sym'), L(), L(I(1), I(2), I(3)), L(I(1), L(I(2), S('x'))),
         D([(I(1), I(2)), (S('k'), L(I(3)))]), S('x' * 60), S('y' * 120), S('w' * 100), S('u' * 90), L(*[I(i * 1000) for i in range(14)]),
         L(*[R(i + 0.5) for i in range(12)]), ('f', 1), U]
@@ -252,6 +253,7 @@ class KVWorld:
 # ----------------------------------------------------------------------------- table store
 
 TKEYS = ['t1', 'dir/t2', 't3', 't4', 'dir/t5', 't6', 't7', 'e/f/t8', 't9', 't10']
+TMISSING = ['never', 'dir/never', 'dir', 'e', 'e/f', 't1/x']     # never set: absent, below a plain file, or a directory of stored keys
 COLSETS = [('a',), ('a', 'b'), ('a', 'c'), ('b',)]
 
 
@@ -443,6 +445,10 @@ def make_machine(stats, report, which):
 
             @rule(data=st.data(), key=st.sampled_from(TKEYS))
             def get(self, data, key):
+                self.do(data, ('get', key))
+
+            @rule(data=st.data(), key=st.sampled_from(TMISSING))
+            def missing(self, data, key):
                 self.do(data, ('get', key))
 
         @rule(data=st.data())
